@@ -307,6 +307,14 @@ class Exec:
             return v.t != self.fm.lit(0)
         if v.k == "none":
             return z3.BoolVal(False)
+        if v.k == "lol3":           # truthiness of a list: non-empty
+            return self.heap[(v.t.id, "len")] > 0
+        if v.k == "lol3b":
+            return z3.Select(self.heap[(v.t[0].id, "len2")], v.t[1]) > 0
+        if v.k == "lol3c":
+            return z3.Select(z3.Select(self.heap[(v.t[0].id, "ilen3")], v.t[1]), v.t[2]) > 0
+        if v.k == "ilist":
+            return z3.Select(self.heap[(v.t[0].id, "ilen")], v.t[1]) > 0
         if v.k in ("obj", "func", "arr"):
             t = self.fresh("truthy", B)
             if not self.spec_mode:
@@ -953,6 +961,9 @@ class Exec:
         if base.k == "lol3c":
             lo, i_, a_ = base.t
             p_ = self.to_int(self.ev(items[0]))
+            ln_ = z3.Select(z3.Select(self.heap[(lo.id, "ilen3")], i_), a_)
+            if isinstance(items[0], ast.UnaryOp) and isinstance(items[0].op, ast.USub) and isinstance(items[0].operand, ast.Constant):
+                p_ = ln_ + p_           # literal negative index: counted from the end
             if not self.spec_mode:
                 self.oblige("bounds", f"{src_of(n)}: inner-list index within [0, len)",
                             z3.And(p_ >= 0, p_ < z3.Select(z3.Select(self.heap[(lo.id, "ilen3")], i_), a_)), n)
@@ -1503,6 +1514,16 @@ class Exec:
             pos = z3.Select(il, j)
             self.heap[(lo.id, "elems")] = z3.Store(el, j, z3.Store(z3.Select(el, j), pos, k))
             self.heap[(lo.id, "ilen")] = z3.Store(il, j, pos + 1)
+            return Val("none")
+        if recv.k in ("lol3", "lol3b", "lol3c") and name in ("append", "extend", "insert", "pop", "remove", "sort", "reverse", "clear"):
+            # a read-only list input (nested list handed in by the caller) is edited: a frame obligation that fails on every
+            # feasible path reaching the statement; the path is cut afterwards (the model has no written state for it)
+            for a_ in n.args:
+                try:
+                    self.ev(a_)
+                except Undecidable:
+                    pass
+            self.oblige("frame", f"list input is not written: {src_of(n)[:70]} (not in modifies)", z3.BoolVal(False), n)
             return Val("none")
         if recv.k in ("lol", "ilist"):
             raise Undecidable(f"list method {name}")
